@@ -56,6 +56,8 @@ class Env(object):
         self.ids = {}
         self.roots = []
         self.spawned = []
+        self.shared = None
+        self.shared_children = []
 
     def next_n(self, who):
         k = self.ids.get(who, 0) + 1
@@ -70,7 +72,7 @@ class Env(object):
             self.errors.append("%s %s: current_action() is %s, expected %s" % (who, where, conc._desc(got), conc._desc(want[0])))
 
 
-def make_genfn(env, who, body, base_holder):
+def make_genfn(env, who, body, base_holder, may_spawn=True):
     """
     base_holder: [action, model_children] fixed at first resumption.
     """
@@ -122,14 +124,44 @@ def make_genfn(env, who, body, base_holder):
                     env.expect(who, top, "in the except block")
             elif op == "return":
                 return ("RET", node[1] % len(VALS))
+            elif op == "shared":
+                # one Action object handed to every generator: each enters its context() around some yields
+                shared = env.shared
+                if any(entry[0] == "shared-marker" or (shared is not None and entry[0] is shared) for entry in stack):
+                    # already inside it
+                    r = yield from run(node[1], stack)
+                    if r is not None:
+                        return r
+                    continue
+                if shared is None:
+                    # the undecorated reference run: same control flow, no actions
+                    stack.append(["shared-marker", None])
+                    try:
+                        r = yield from run(node[1], stack)
+                    finally:
+                        stack.pop()
+                    if r is not None:
+                        return r
+                    continue
+                env.expect(who, top, "before entering the shared action's context")
+                entry = [shared, env.shared_children]
+                with shared.context():
+                    stack.append(entry)
+                    try:
+                        r = yield from run(node[1], stack)
+                    finally:
+                        stack.pop()
+                    if r is not None:
+                        return r
+                env.expect(who, top, "after leaving the shared action's context")
             elif op == "spawn":
                 # start a nested decorated generator here (first resumption inside this body) and hand it to the
                 # driver, who resumes it later on its own; only outside this generator's own actions, so that the
                 # nested generator never logs into an action that has already ended
-                if stack:
+                if stack or not may_spawn:
                     continue
                 sub_base = [top[0], top[1]]
-                sub_fn = make_genfn(env, who + ".sp", node[1], sub_base)
+                sub_fn = make_genfn(env, who + ".sp", node[1], sub_base, may_spawn=True)
                 sub = sub_fn()
                 try:
                     out = next(sub)
@@ -140,7 +172,9 @@ def make_genfn(env, who, body, base_holder):
                 env.expect(who, top, "after starting a nested generator")
             elif op == "yieldfrom":
                 sub_base = [top[0], top[1]]
-                sub = make_genfn(env, who + ".sub", node[1], sub_base)
+                # (a nested generator started inside one of this generator's actions must not hand generators to the
+                # driver: they would log into that action after it has ended)
+                sub = make_genfn(env, who + ".sub", node[1], sub_base, may_spawn=may_spawn and not stack)
                 r = yield from sub()
                 env.trace.append((who, "sub-returned", id(r) if r is not None else None))
                 env.expect(who, top, "after yield from")
@@ -188,6 +222,15 @@ def drive(case, decorated):
                 mA["children"].append(mB)
                 B = start_action(action_type="drv:B", n=nB, who="drv")
                 env.action_models[id(B)] = mB["children"]
+        if decorated:
+            # the action every generator may enter through context(): a child of A, finished at the very end
+            with A.context():
+                nS = env.next_n("drv")
+                mS = {"kind": "action", "n": nS, "who": "drv", "children": [], "type": "drv:shared"}
+                mA["children"].append(mS)
+                env.shared = start_action(action_type="drv:shared", n=nS, who="drv")
+                env.shared_children = mS["children"]
+                env.action_models[id(env.shared)] = mS["children"]
         gens = []
         for i, body in enumerate(case["gens"]):
             holder = ["unset", None]
@@ -305,6 +348,7 @@ def drive(case, decorated):
         del gens[:]
         gc.collect(1)
         if decorated:
+            env.shared.finish()
             B.finish()
             A.finish()
             if current_action() is not None:
@@ -358,7 +402,7 @@ def classify(case, info):
     text = canon(case["gens"])
     if any(c is not None for c in case.get("create_ctx") or []):
         labels.append("created-in-one-context-started-in-another")
-    for k in ("yieldfrom", "try", "return", "action", "spawn"):
+    for k in ("yieldfrom", "try", "return", "action", "spawn", "shared"):
         if '"%s"' % k in text:
             labels.append("body:" + k)
     holding = sum(1 for g in case["gens"] if holds_action(g))
@@ -385,6 +429,7 @@ def bodies(depth=3):
             below.map(lambda b: ["try", b]),
             below.map(lambda b: ["yieldfrom", b]),
             below.map(lambda b: ["spawn", b]),
+            below.map(lambda b: ["shared", b]),
         )
         tail = st.one_of(st.none(), st.none(), st.integers(0, 7).map(lambda v: ["return", v]))
         return st.tuples(st.lists(node, min_size=1, max_size=4), tail).map(lambda p: p[0] + ([p[1]] if p[1] else []))
